@@ -1,7 +1,9 @@
 #!/bin/sh
-# usage: tools/goal.sh coq/Proofs/X.v LINE  -- show the proof state after line LINE
+# usage: tools/goal.sh coq/Proofs/X.v LINE [TAIL]  -- show the proof state after line LINE
+root="$(cd "$(dirname "$0")/.." && pwd)"
 f="$1"; n="$2"
-d=$(mktemp -d /verif/.cache/goal.XXXXXX 2>/dev/null || (mkdir -p /verif/.cache && mktemp -d /verif/.cache/goal.XXXXXX))
+mkdir -p "$root/.cache"
+d=$(mktemp -d "$root/.cache/goal.XXXXXX")
 head -n "$n" "$f" > "$d/G.v"; echo "Show." >> "$d/G.v"
-(cd /verif/coq && timeout 120 coqc -Q . Coupe -o "$d/G.vo" "$d/G.v" 2>&1 | tail -${3:-60})
+(cd "$root/coq" && timeout 300 coqc -Q . Coupe -o "$d/G.vo" "$d/G.v" 2>&1 | tail -${3:-60})
 rm -rf "$d"
